@@ -189,7 +189,12 @@ func scopes() map[string]*PropScope {
 		Roots: func(e *Engine) []*ssa.Function {
 			return e.selectFns(func(f *ssa.Function) bool {
 				pk := e.pkgName(f)
-				return (pk == "layers" || pk == "gopacket") && f.Name() == "SerializeTo" && f.Signature.Recv() != nil
+				if !(pk == "layers" || pk == "gopacket") || f.Name() != "SerializeTo" || f.Signature.Recv() == nil {
+					return false
+				}
+				// the SerializableLayer method, not helpers that happen to share the name (ICMPv4TypeCode.SerializeTo(bytes))
+				ps := f.Signature.Params()
+				return ps.Len() == 2 && strings.HasSuffix(ps.At(0).Type().String(), "gopacket.SerializeBuffer")
 			})
 		},
 		Cfg: func(e *Engine, f *ssa.Function, root bool) *FnConfig {
@@ -281,8 +286,9 @@ func scopes() map[string]*PropScope {
 		},
 		NotCovered: []string{"reflection-based renderers (LayerString/LayerDump/LayerGoString) are outside the subset: assumed not to panic on values whose Stringers do not panic", "accessors are verified for arbitrary receiver state (stronger than 'a packet that decoding produced'); obligations that need decode-established invariants are listed as not claimed"},
 	})
+	internalOnly := map[string]bool{"C11": true, "C14": true} // contracted functions are internal: a zero-valued receiver is not a state the API can produce, so models are not replayed
 	tagged := func(id, technique string, notCovered ...string) {
-		add(&PropScope{ID: id, Closure: false, Technique: technique, NotCovered: notCovered,
+		add(&PropScope{ID: id, Closure: false, Technique: technique, NotCovered: notCovered, NoReplay: internalOnly[id],
 			Roots: func(e *Engine) []*ssa.Function {
 				var r []*ssa.Function
 				for _, k := range e.contractKeys() {
@@ -296,13 +302,26 @@ func scopes() map[string]*PropScope {
 				}
 				return r
 			},
-			Cfg: func(e *Engine, f *ssa.Function, root bool) *FnConfig { return &FnConfig{} },
+			Cfg: func(e *Engine, f *ssa.Function, root bool) *FnConfig {
+				if internalOnly[id] {
+					// the property is carried by the contract clauses; run-time safety of these internals belongs to other checks
+					return &FnConfig{Classes: classSet([]string{"pre", "post", "inv-entry", "inv-pres", "assert", "frame"})}
+				}
+				return &FnConfig{}
+			},
 		})
 	}
 	tagged("C13", "contract-based deductive verification: RFC 791 fragment arithmetic of the security checks over mathematical integers, exact truth table of dontDefrag, z3/cvc5",
 		"insert/build contracts with the ghost sequence model of container/list are not written yet: the safety half ('never a byte no fragment put there', consistent header) and the history theorem (returns the datagram exactly when the last fragment arrives) are not claimed", "ip6defrag")
 	tagged("C16", "contract-based deductive verification: sequential clauses of the packet source (zero-copy guard, pull interface) with an interface contract for options checked on every implementer, z3/cvc5",
 		"everything about the channel goroutine: exactly-once through the channel, retry timing, close on EOF, cancellation latency (schedules)")
+	tagged("C14", "contract-based deductive verification: ghost byte counters on the buffered reader / writer (assumed bufio contracts), option framing of the pcapng reader (every option consumes 4 + length + padding bytes), data padding before the options in the pcapng writer, result clause of the pcap reader, z3/cvc5",
+		"writer->reader equality of whole files (needs a byte-sequence model of the stream through bufio): only framing arithmetic and result clauses are proved",
+		"libpcap reading the same packets (cgo)", "truncation at an arbitrary offset yields a true prefix: follows from the reader contracts (an error from the stream is returned, complete records consume exactly their bytes) but is not proved as a whole-file theorem",
+		"option values written by writeOptions (the option payload is boxed in an interface{}: lengths are lost in the model)")
+	tagged("C11", "contract-based deductive verification: completion-once typestate (closed flag) of both assemblers, page accounting of pagesFromTCP against a ghost count of page-cache allocations, z3/cvc5",
+		"no page remains in use after FlushAll, pages never exceed the limit by more than the current packet, age cut-off exactness: global accounting over linked lists and maps of connections (whole-history)",
+		"everything that depends on goroutine interleavings")
 	tagged("C08", "contract-based deductive verification: functional contracts against RFC 1071 spec functions (sum16/oc16), loop invariants, z3/cvc5")
 	tagged("C17", "contract-based deductive verification: value invariants wfE/wfF, functional contracts, lemmas over contracts as ghost code, z3/cvc5")
 	tagged("C18", "contract-based deductive verification: representation invariant + abstract view contracts with frames on every buffer method, z3/cvc5")
